@@ -192,6 +192,12 @@ def run(ctx):
                 b.fit(dx, dy, "time")
                 cmp_cross(ctx, "C10:pca-all-modes:%s" % cls.__name__, "%s with PCA keeping all modes vs no PCA" % cls.__name__, a, b,
                           dict(replay, Xc=np.asarray(dx.values), Yc=np.asarray(dy.values)))
+                # "all modes" spelled out per field as the two (different) feature counts, and pre-reduction of one field only
+                for spelled in (dict(use_pca=True, n_pca_modes=[p1, p2]), dict(use_pca=[True, False], n_pca_modes=[p1, 1]), dict(use_pca=[False, True], n_pca_modes=[1, p2])):
+                    b = cls(n_modes=k, solver="full", **spelled, **kw)
+                    b.fit(dx, dy, "time")
+                    cmp_cross(ctx, "C10:pca-all-modes:per-field:%s" % cls.__name__, "%s with %r (every mode of each field kept) vs no PCA" % (cls.__name__, spelled), a, b,
+                              dict(replay, Xc=np.asarray(dx.values), Yc=np.asarray(dy.values), spelled=str(spelled)))
         except Exception as e_:
             ctx.violation("C10:pca-all-modes:error", "PCA-all-modes comparison raised %r" % (e_,), replay)
         # 9. two-view multi-set CCA and cross-set CCA find the same canonical correlations
